@@ -1,0 +1,95 @@
+//go:build verif
+
+// Contracts for the gvc verification-condition generator (see /verif/DESIGN.md).
+// This file contains no executable code: a package clause and comments only.
+
+package litestream
+
+/*@
+// ---------------------------------------------------------------------------
+// C08 restore planning
+
+func litestream.restoreCandidateBetter(curr, next) (b)
+  requires curr != nil && next != nil
+  ensures next.MaxTXID > curr.MaxTXID ==> b
+  ensures next.MaxTXID < curr.MaxTXID ==> !b
+  ensures b ==> next.MaxTXID >= curr.MaxTXID
+
+pred elig(f *ltx.FileInfo, txID int, ts int) = (txID == 0 || f.MaxTXID <= txID) && (ts == 0 || f.CreatedAt < ts)
+pred cpos(c *restoreLevelCursor) = c.current != nil ? it_idx[c.itr] - 1 : it_idx[c.itr]
+pred sortedLevel(cl int, lv int) = forall i int, j int :: {replFile(cl, lv, i), replFile(cl, lv, j)} 0 <= i && i < j && j < replN(cl, lv) ==> fmin(replFile(cl, lv, i)) <= fmin(replFile(cl, lv, j))
+pred wfItems(cl int, lv int) = forall i int :: {replFile(cl, lv, i)} 0 <= i && i < replN(cl, lv) ==> replFile(cl, lv, i) != nil && allocated(replFile(cl, lv, i)) && 1 <= fmin(replFile(cl, lv, i)) && fmin(replFile(cl, lv, i)) <= fmax(replFile(cl, lv, i)) && fmax(replFile(cl, lv, i)) < 9223372036854775807
+pred cursorLink(c *restoreLevelCursor) =
+     c != nil && c.itr != nil && itOK(c.itr)
+  && (c.done ==> c.current == nil && it_idx[c.itr] == it_n[c.itr] && it_err[c.itr] == 0)
+  && (c.current != nil ==> it_idx[c.itr] >= 1 && c.current == item(c.itr, it_idx[c.itr] - 1))
+pred cursorInv(c *restoreLevelCursor, cur int, txID int, ts int) =
+     cursorLink(c)
+  && (c.candidate != nil ==> elig(c.candidate, txID, ts) && c.candidate.MinTXID <= cur + 1 && (exists k int :: {item(c.itr, k)} 0 <= k && k < cpos(c) && c.candidate == item(c.itr, k)))
+  && (forall k int :: {item(c.itr, k)} 0 <= k && k < cpos(c) ==> fmin(item(c.itr, k)) <= cur + 1)
+  && (forall k int :: {item(c.itr, k)} 0 <= k && k < cpos(c) && elig(item(c.itr, k), txID, ts) ==> fmax(item(c.itr, k)) <= cur || (c.candidate != nil && fmax(item(c.itr, k)) <= c.candidate.MaxTXID))
+
+func litestream.(*restoreLevelCursor).refresh(c, currentMax, txID, timestamp) (err)
+  requires cursorInv(c, currentMax, txID, timestamp)
+  requires sortedLevel(it_client[c.itr], it_level[c.itr]) && wfItems(it_client[c.itr], it_level[c.itr])
+  requires currentMax < 9223372036854775807
+  modifies c.current, c.candidate, c.done, it_idx
+  ensures forall k int :: k != c.itr ==> it_idx[k] == old(it_idx[k])
+  ensures err == nil ==> cursorInv(c, currentMax, txID, timestamp)
+  ensures err == nil && !old(c.done) ==> (c.candidate != nil ==> c.candidate.MaxTXID > currentMax)
+  ensures err == nil ==> c.done || (c.current != nil && c.current.MinTXID > currentMax + 1)
+  loop 0 invariant cursorInv(c, currentMax, txID, timestamp) && !c.done
+  loop 0 invariant c.candidate != nil ==> c.candidate.MaxTXID > currentMax
+  loop 0 invariant forall k int :: k != c.itr ==> it_idx[k] == old(it_idx[k])
+
+pred wfReplica(cl int) = (forall lv int, i int, j int :: {replFile(cl, lv, i), replFile(cl, lv, j)} 0 <= lv && lv <= 9 && 0 <= i && i < j && j < replN(cl, lv) ==> fmin(replFile(cl, lv, i)) < fmin(replFile(cl, lv, j)) || (fmin(replFile(cl, lv, i)) == fmin(replFile(cl, lv, j)) && fmax(replFile(cl, lv, i)) <= fmax(replFile(cl, lv, j))))
+  && (forall lv int, i int :: {replFile(cl, lv, i)} 0 <= lv && lv <= 9 && 0 <= i && i < replN(cl, lv) ==> replFile(cl, lv, i) != nil && allocated(replFile(cl, lv, i)) && 1 <= fmin(replFile(cl, lv, i)) && fmin(replFile(cl, lv, i)) <= fmax(replFile(cl, lv, i)) && fmax(replFile(cl, lv, i)) < 9223372036854775807)
+pred snapMin1(cl int) = forall i int :: {replFile(cl, 9, i)} 0 <= i && i < replN(cl, 9) ==> fmin(replFile(cl, 9, i)) == 1
+pred member(cl int, f int) = exists lv int, k int :: {replFile(cl, lv, k)} 0 <= lv && lv <= 9 && 0 <= k && k < replN(cl, lv) && f == replFile(cl, lv, k)
+pred planInv(infos []*ltx.FileInfo, cur int, cl int, txID int, ts int) =
+     (len(infos) == 0 ==> cur == 0)
+  && (len(infos) > 0 ==> infos[0].MinTXID == 1 && cur == infos[len(infos) - 1].MaxTXID)
+  && (forall i int :: {infos[i]} 0 <= i && i < len(infos) ==> infos[i] != nil && elig(infos[i], txID, ts) && member(cl, infos[i]) && infos[i].MaxTXID < 9223372036854775807)
+  && (forall i int :: {infos[i]} 1 <= i && i < len(infos) ==> infos[i].MinTXID <= infos[i - 1].MaxTXID + 1 && infos[i].MaxTXID > infos[i - 1].MaxTXID)
+pred cursorsInv(cs []*restoreLevelCursor, n int, cur int, cl int, txID int, ts int) =
+     (forall j int :: {cs[j]} 0 <= j && j < n ==> cs[j] != nil && fresh(cs[j]) && allocated(cs[j].itr) && cursorInv(cs[j], cur, txID, ts) && it_client[cs[j].itr] == cl && it_level[cs[j].itr] == 8 - j)
+  && (forall i int, j int :: {cs[i], cs[j]} 0 <= i && i < j && j < n ==> cs[i] != cs[j] && cs[i].itr != cs[j].itr)
+
+func litestream.CalcRestorePlan(ctx, client, txID, timestamp, logger) (infos, err)
+  requires client != nil && wfReplica(client) && snapMin1(client)
+  requires txID < 9223372036854775807
+  modifies $alloc, it_idx
+  ensures [C08.nonempty] err == nil ==> len(infos) >= 1
+  ensures [C08.start] err == nil ==> infos[0].MinTXID == 1
+  ensures [C08.chain] err == nil ==> (forall i int :: 1 <= i && i < len(infos) ==> infos[i].MinTXID <= infos[i - 1].MaxTXID + 1 && infos[i].MaxTXID > infos[i - 1].MaxTXID)
+  ensures [C08.target] err == nil && txID != 0 ==> infos[len(infos) - 1].MaxTXID == txID
+  ensures [C08.time] err == nil && timestamp != 0 ==> (forall i int :: 0 <= i && i < len(infos) ==> infos[i].CreatedAt < timestamp)
+  ensures [C08.member] err == nil ==> (forall i int :: 0 <= i && i < len(infos) ==> member(client, infos[i]))
+  loop 0 invariant snapshotItr != nil && itOK(snapshotItr) && it_client[snapshotItr] == client && it_level[snapshotItr] == 9
+  loop 0 invariant snapshot != nil ==> elig(snapshot, txID, timestamp) && (exists k int :: 0 <= k && k < it_idx[snapshotItr] && snapshot == item(snapshotItr, k))
+  loop 0 invariant forall k int :: 0 <= k && k < it_idx[snapshotItr] && elig(item(snapshotItr, k), txID, timestamp) ==> snapshot != nil && fmax(item(snapshotItr, k)) <= snapshot.MaxTXID
+  loop 1 invariant -1 <= level && level <= 8 && len(cursors) == 8 - level && cap(cursors) == 9
+  loop 1 invariant fresh(arr(cursors))
+  loop 1 invariant cursorsInv(cursors, len(cursors), currentMax, client, txID, timestamp)
+  loop 2 invariant len(cursors) == 9 && cursorsInv(cursors, 9, currentMax, client, txID, timestamp)
+  loop 2 invariant fresh(arr(cursors)) && (cap(infos) == 0 || fresh(arr(infos)))
+  loop 2 invariant planInv(infos, currentMax, client, txID, timestamp)
+  loop 3 invariant -1 <= rangeindex && rangeindex < 9
+  loop 3 invariant len(cursors) == 9 && cursorsInv(cursors, 9, currentMax, client, txID, timestamp)
+  loop 3 invariant fresh(arr(cursors))
+  loop 3 invariant next == nil || (next.candidate != nil && (exists m int :: 0 <= m && m <= rangeindex && next == cursors[m]))
+  loop 4 invariant len(cursors) == 9 && cursorsInv(cursors, 9, currentMax, client, txID, timestamp)
+  loop 4 invariant fresh(arr(cursors)) && rangeindex#1 < 9
+  loop 4 invariant planInv(infos, currentMax, client, txID, timestamp)
+
+func litestream.(*restoreLevelCursor).ensureCurrent(c) (err)
+  requires cursorLink(c)
+  modifies c.current, c.done, it_idx
+  ensures cursorLink(c)
+  ensures forall k int :: k != c.itr ==> it_idx[k] == old(it_idx[k])
+  ensures err == nil ==> c.done || c.current != nil
+  ensures old(c.done) || old(c.current) != nil ==> err == nil && it_idx == old(it_idx) && c.current == old(c.current) && c.done == old(c.done)
+  ensures !old(c.done) && old(c.current) == nil && err == nil && !c.done ==> it_idx[c.itr] == old(it_idx[c.itr]) + 1
+  ensures !old(c.done) && old(c.current) == nil && (err != nil || c.done) ==> it_idx[c.itr] == old(it_idx[c.itr]) && c.current == nil
+  ensures err != nil ==> !c.done
+*/
